@@ -128,7 +128,7 @@ def c02_5(cx):
     b = cx.fn(r"^active_query::ActiveQuery::add_untracked_read$")
     want = {"untracked_read": ([r"^const:1$"], [r"^const:0$"]),
             "durability": ([r"Durability::(MIN|LOW)"], [r"Durability::(MAX|NEVER_CHANGE|HIGH|MEDIUM)", r"min\(", r"max\("]),
-            "changed_at": ([r"^\$2$"], [r"^const:", r"Revision::start", r"max\("])}
+            "changed_at": ([r"^\$2$", r"::max\(\$1\.changed_at, \$2\)$", r"::max\(\$2, \$1\.changed_at\)$"], [r"^const:", r"Revision::start", r"::min\("])}
     seen = set()
     for s in b.all_sites():
         if s.is_term() or s.node()["k"] != "assign" or not s.node()["p"]["pj"]:
